@@ -53,18 +53,48 @@ def handle_request(u: U):
     buffered = u.int("writer.buffer_size", 0)
 
     class _Writer:
-        output_size = sent
-        buffer_size = buffered
+        """StreamWriter as far as the error path looks at it: a new one is pristine (identity framing, no length, no
+        compressor, no buffered header block)"""
+
+        def __init__(self, protocol=None, loop=None):
+            self.output_size = 0
+            self.buffer_size = 0
+            self.chunked = False
+            self.length = None
+            self._compress = None
+            self._headers_buf = None
+
+        def pristine(self):
+            return (self.chunked is False and self.length is None and self._compress is None
+                    and self._headers_buf is None)
 
     class _Hdrs:
         def get(self, k, d=None):
             return d
 
+    # the handler may have PREPARED a response of its own before it failed: its header block is buffered in the writer
+    # (not a byte sent: output_size == 0) and the framing it chose is set on the writer
+    prepared = u.choose(2, "handler_prepared_a_response") == 1
+    w0 = _Writer()
+    w0.output_size = sent
+    w0.buffer_size = buffered
+    if prepared:
+        w0.chunked = u.choose(2, "prepared.chunked") == 1
+        w0.length = (None, 5)[u.choose(2, "prepared.length")]
+        w0._compress = (None, "COMPRESSOR")[u.choose(2, "prepared.compress")]
+        w0._headers_buf = b"HTTP/1.1 200 OK\r\n\r\n"
+
     class _Req:
-        writer = _Writer()
         remote = "peer"
         headers = _Hdrs()
         _pre_handler_error = None
+
+        def __init__(self):
+            self._payload_writer = w0
+
+        @property
+        def writer(self):
+            return self._payload_writer
 
     req = _Req()
     http_exc = HTTPNotFound()
@@ -80,6 +110,16 @@ def handle_request(u: U):
 
     def finish_response(self, request, resp, start_time):
         log.append(("finish", resp))
+        if resp != "RESP":
+            # an error response takes the place of whatever the handler had prepared
+            u.check("C05.handle.error_response_starts_from_a_pristine_writer", request.writer.pristine(),
+                    "the error response is written through a writer in its initial state: the framing the handler's own, "
+                    "never-sent response had chosen (chunked, a length, a compressor) is not applied to the error body - "
+                    "else e.g. 'Content-Length: 4' is followed by a chunk-framed body and the next response on the "
+                    "connection is misread",
+                    known=[("F05c", True)],
+                    witness={"chunked": request.writer.chunked, "length": request.writer.length,
+                             "compress": request.writer._compress is not None})
         return SAwait(result=(resp, False), raises=(), name="finish_response")
 
     class _Resp:
@@ -103,12 +143,15 @@ def handle_request(u: U):
         def get_debug(self):
             return False
 
-    he = u.load(MOD, "RequestHandler.handle_error", globals={"Response": _Resp})
+    he = u.load(MOD, "RequestHandler.handle_error", globals={"Response": _Resp, "StreamWriter": _Writer})
     h = u.obj("RequestHandler", {"_request_in_progress": False, "_current_request": None, "_handler_waiter": hw,
                                  "_loop": _Loop(), "logger": type("L", (), {"warning": lambda *a, **k: None})()},
               {"finish_response": finish_response, "handle_error": lambda self, *a, **k: he(self, *a, **k),
-               "log_debug": lambda self, *a, **k: None, "log_exception": lambda self, *a, **k: None}, shared=False)
-    f = u.load(MOD, "RequestHandler._handle_request", globals={"Response": _Resp})
+               "log_debug": lambda self, *a, **k: None, "log_exception": lambda self, *a, **k: None}, shared=False,
+              real=(MOD, "RequestHandler"))
+    # helpers the error path is split into are followed through the real class, with the same stand-ins
+    u.module_globals[MOD] = {"Response": _Resp, "StreamWriter": _Writer}
+    f = u.load(MOD, "RequestHandler._handle_request", globals={"Response": _Resp, "StreamWriter": _Writer})
     if kind == "raise" and not isinstance(exc, asyncio.CancelledError):
         # SAwait with result=None: only the raise outcome is meaningful
         pass
